@@ -40,6 +40,12 @@ func (c *FnCtx) findLockInv(structKey, mutex string) *LockInv {
 
 // special handles calls with built-in semantics. Returns true if handled.
 func (c *FnCtx) special(frame *Frame, st *State, in ssa.Instruction, call *ssa.CallCommon, key string, args []Val, rt types.Type, k func(st *State, res Val)) bool {
+	if key == "sort.Slice" || key == "sort.SliceStable" {
+		if c.sortSlice(st, args) {
+			k(st, Val{K: KTuple})
+			return true
+		}
+	}
 	if op, ok := lockCalls[key]; ok && op != "" {
 		recv := args[0]
 		a := recv.A
